@@ -31,15 +31,22 @@ class OutOfFuel(Exception):
 
 
 class Blk:
-    __slots__ = ("id", "label", "elt", "cells", "live", "owner")
+    """A heap block: exact length [n], cells kept sparsely (absent = never initialised), so that the
+    default initial capacity of 2^20 elements costs nothing."""
 
-    def __init__(self, id, label, elt, cells, owner):
+    __slots__ = ("id", "label", "elt", "n", "cells", "live", "owner")
+
+    def __init__(self, id, label, elt, n, cells, owner):
         self.id = id
         self.label = label
         self.elt = elt
-        self.cells = cells
+        self.n = n
+        self.cells = cells  # dict index -> value
         self.live = True
         self.owner = owner
+
+    def as_list(self):
+        return [self.cells.get(i) for i in range(self.n)]
 
 
 class Ptr:
@@ -80,8 +87,8 @@ class Machine:
         self.steps = 0
 
     # ------------------------------------------------------------------ heap
-    def new_block(self, label, elt, cells, owner):
-        b = Blk(len(self.blocks), label, elt, cells, owner)
+    def new_block(self, label, elt, n, cells, owner):
+        b = Blk(len(self.blocks), label, elt, n, cells, owner)
         self.blocks.append(b)
         return b
 
@@ -96,9 +103,9 @@ class Machine:
     def load(self, p, i):
         self.check_ptr(p, "load")
         k = p.off + i
-        if not (0 <= k < len(p.blk.cells)):
-            raise MemError("load-out-of-bounds", f"{p.blk.label}[{k}] with length {len(p.blk.cells)}")
-        v = p.blk.cells[k]
+        if not (0 <= k < p.blk.n):
+            raise MemError("load-out-of-bounds", f"{p.blk.label}[{k}] with length {p.blk.n}")
+        v = p.blk.cells.get(k)
         if v is None:
             raise MemError("uninitialised-read", f"{p.blk.label}[{k}]")
         return v
@@ -108,8 +115,8 @@ class Machine:
         k = p.off + i
         if p.blk.owner == "input":
             raise MemError("store-into-input", f"{p.blk.label}[{k}]")
-        if not (0 <= k < len(p.blk.cells)):
-            raise MemError("store-out-of-bounds", f"{p.blk.label}[{k}] with length {len(p.blk.cells)}")
+        if not (0 <= k < p.blk.n):
+            raise MemError("store-out-of-bounds", f"{p.blk.label}[{k}] with length {p.blk.n}")
         if p.blk.elt == "float":
             v = float(v)
         elif isinstance(v, float):
@@ -254,15 +261,15 @@ class Machine:
     def materialise(self, label, value):
         if isinstance(value, tuple) and value and value[0] == "alloc":
             _, elt, n = value
-            b = self.new_block(label, elt, [None] * n, "kernel")
+            b = self.new_block(label, elt, n, {}, "kernel")
             self.log.append(("alloc", label, n))
             return Ptr(b)
         if isinstance(value, tuple) and value and value[0] == "realloc":
             _, old, elt, n = value
-            cells = old.blk.cells[:n] + [None] * max(0, n - len(old.blk.cells))
+            cells = {k: v for k, v in old.blk.cells.items() if k < n}
             old.blk.live = False
-            b = self.new_block(old.blk.label, elt, cells, "kernel")
-            self.log.append(("realloc", old.blk.label, len(old.blk.cells), n))
+            b = self.new_block(old.blk.label, elt, n, cells, "kernel")
+            self.log.append(("realloc", old.blk.label, old.blk.n, n))
             return Ptr(b)
         return value
 
@@ -307,7 +314,7 @@ class Machine:
 
     # ------------------------------------------------------------------ tensors
     def input_struct(self, name, r):
-        dims = Ptr(self.new_block(f"{name}.dimensions", "int", list(r["dims"]), "input"))
+        dims = Ptr(self.new_block(f"{name}.dimensions", "int", len(r["dims"]), dict(enumerate(r["dims"])), "input"))
         indices = []
         for l, (m, ix) in enumerate(zip(r["modes"], r["indices"])):
             if m == "d":
@@ -315,15 +322,15 @@ class Machine:
             else:
                 indices.append(
                     [
-                        Ptr(self.new_block(f"{name}_{l}_pos(in)", "int", list(ix[0]), "input")),
-                        Ptr(self.new_block(f"{name}_{l}_crd(in)", "int", list(ix[1]), "input")),
+                        Ptr(self.new_block(f"{name}_{l}_pos(in)", "int", len(ix[0]), dict(enumerate(ix[0])), "input")),
+                        Ptr(self.new_block(f"{name}_{l}_crd(in)", "int", len(ix[1]), dict(enumerate(ix[1])), "input")),
                     ]
                 )
-        vals = Ptr(self.new_block(f"{name}_vals(in)", "float", [float(v) for v in r["vals"]], "input"))
+        vals = Ptr(self.new_block(f"{name}_vals(in)", "float", len(r["vals"]), {i: float(v) for i, v in enumerate(r["vals"])}, "input"))
         return Struct(name, dims, indices, vals, False)
 
     def output_struct(self, name, dims, modes):
-        d = Ptr(self.new_block(f"{name}.dimensions", "int", list(dims), "input"))
+        d = Ptr(self.new_block(f"{name}.dimensions", "int", len(dims), dict(enumerate(dims)), "input"))
         indices = [None if m == "d" else [NULL, NULL] for m in modes]
         return Struct(name, d, indices, NULL, True)
 
@@ -363,14 +370,22 @@ def run_kernel(fn, out_name, out_dims, out_modes, out_ordering, inputs_raw, fuel
                 complete = False
                 final["indices"].append([None, None])
             else:
-                final["indices"].append([list(pair[0].blk.cells), list(pair[1].blk.cells)])
-                lengths[f"{out_name}_{l}_pos"] = len(pair[0].blk.cells)
-                lengths[f"{out_name}_{l}_crd"] = len(pair[1].blk.cells)
+                if pair[0].blk.n > 100000 or pair[1].blk.n > 100000:
+                    complete = False  # a block that was never shrunk: too large to report cell by cell
+                    final["indices"].append([None, None])
+                else:
+                    final["indices"].append([pair[0].blk.as_list(), pair[1].blk.as_list()])
+                lengths[f"{out_name}_{l}_pos"] = pair[0].blk.n
+                lengths[f"{out_name}_{l}_crd"] = pair[1].blk.n
     if out.vals is NULL or not out.vals.blk.live:
         complete = False
+    elif out.vals.blk.n > 100000:
+        # e.g. the default capacity that was never shrunk: report only what the structure can need
+        final["vals"] = [out.vals.blk.cells.get(i) for i in range(min(out.vals.blk.n, 4096))]
+        lengths[f"{out_name}_vals"] = out.vals.blk.n
     else:
-        final["vals"] = list(out.vals.blk.cells)
-        lengths[f"{out_name}_vals"] = len(out.vals.blk.cells)
+        final["vals"] = out.vals.blk.as_list()
+        lengths[f"{out_name}_vals"] = out.vals.blk.n
     res["final"] = final
     res["complete"] = complete
     res["lengths"] = lengths
